@@ -159,8 +159,110 @@ pub struct Item {
     pub events: Vec<EventSpec>,
 }
 
+/// First plain string literal of a source: (start, end, value). `"..."` without escapes or templates, or `s'...'`.
+fn first_literal(src: &str) -> Option<(usize, usize, String)> {
+    let b = src.as_bytes();
+    let mut i = 0;
+    while i < b.len() {
+        match b[i] {
+            b'#' => {
+                // comment to end of line
+                while i < b.len() && b[i] != b'\n' {
+                    i += 1;
+                }
+            }
+            b'"' => {
+                let start = i;
+                i += 1;
+                let mut ok = true;
+                while i < b.len() && b[i] != b'"' {
+                    if b[i] == b'\\' || b[i] == b'{' {
+                        ok = false;
+                    }
+                    if b[i] == b'\\' {
+                        i += 1;
+                    }
+                    i += 1;
+                }
+                if i < b.len() && ok && i > start + 1 {
+                    return Some((start, i + 1, src[start + 1..i].to_string()));
+                }
+                i += 1;
+            }
+            b's' | b'r' | b't' if i + 1 < b.len() && b[i + 1] == b'\'' && (i == 0 || !(b[i - 1].is_ascii_alphanumeric() || b[i - 1] == b'_')) => {
+                let kind = b[i];
+                let start = i;
+                i += 2;
+                while i < b.len() && b[i] != b'\'' {
+                    if b[i] == b'\\' {
+                        i += 1;
+                    }
+                    i += 1;
+                }
+                if kind == b's' && i < b.len() && i > start + 2 && !src[start + 2..i].contains('\\') {
+                    return Some((start, i + 1, src[start + 2..i].to_string()));
+                }
+                i += 1;
+            }
+            _ => i += 1,
+        }
+    }
+    None
+}
+
+/// "Lift" the first string literal of each maintainers' example into the event (`string!(.vin)`), and give the
+/// program the literals of the other examples of the same function (and a reversed one) as further events. This is
+/// the workload for input-dependent shared state: memos, caches and scratch buffers inside a function expression
+/// only go wrong when the same compiled program sees different inputs.
+fn lifted(cases: &[Case]) -> Vec<Case> {
+    let fn_of = |label: &str| label.split(':').nth(1).unwrap_or("").to_string();
+    let lits: Vec<Option<(usize, usize, String)>> = cases.iter().map(|c| first_literal(&c.program.source)).collect();
+    let mut out = vec![];
+    for (i, c) in cases.iter().enumerate() {
+        if !c.label.starts_with("A:") || !c.comparable() {
+            continue;
+        }
+        let Some((a, b, lit)) = &lits[i] else { continue };
+        if c.event.value.as_object().is_some_and(|o| o.contains_key("vin")) {
+            continue;
+        }
+        let source = format!("{}string!(.vin){}", &c.program.source[..*a], &c.program.source[*b..]);
+        let mk = |v: &str| {
+            let mut ev = c.event.clone();
+            if let Some(o) = ev.value.as_object_mut() {
+                o.insert("vin".into(), serde_json::Value::String(v.to_string()));
+            } else {
+                ev.value = serde_json::json!({ "vin": v });
+            }
+            ev
+        };
+        let mut others: Vec<String> = vec![];
+        for (j, d) in cases.iter().enumerate() {
+            if j != i && fn_of(&d.label) == fn_of(&c.label) {
+                if let Some((_, _, l)) = &lits[j] {
+                    if l != lit && !others.contains(l) && others.len() < 2 {
+                        others.push(l.clone());
+                    }
+                }
+            }
+        }
+        others.push(lit.chars().rev().collect());
+        let mut case = c.clone();
+        case.label = format!("L:{}", &c.label[2..]);
+        case.program.source = source;
+        case.program.label = case.label.clone();
+        case.event = mk(lit);
+        case.extra_events = others.iter().filter(|o| *o != lit).map(|o| mk(o)).collect();
+        case.tags.push("lifted".into());
+        out.push(case);
+    }
+    out
+}
+
 pub fn items(include_b: bool) -> Vec<Item> {
     let mut cases = corpus::corpus_a();
+    let lifted_cases = lifted(&cases);
+    cases.extend(lifted_cases);
     if include_b {
         cases.extend(corpus::corpus_b());
     }
@@ -331,15 +433,16 @@ pub fn run(ctx: &Ctx) -> ! {
     let g = compute_goldens(ctx, &items, &mut ev);
     println!("goldens: {} sessions ({:.1}s)", g.specs.len(), ctx.start.elapsed().as_secs_f64());
 
-    // --- part 1: hash-seed / layout sweep: S fresh one-world sessions per (case, event) ------------
+    // --- hash-seed / layout sweep: S fresh one-world sessions per (case, event) ---------------------
     // plain cases get a few seeds; hash-order amplifiers (corpus C, tag "hash") get many
     let (s_plain, s_hash) = if ctx.quick() { (2, 16) } else { (12, 96) };
     let mut rng = Rng::new(mix(ctx.seed, 0xC14));
-    let mut sessions = vec![];
-    let mut used = vec![];
+    let mut sweep_hash: (Vec<SessionSpec>, Vec<Vec<(usize, usize)>>) = (vec![], vec![]);
+    let mut sweep_plain: (Vec<SessionSpec>, Vec<Vec<(usize, usize)>>) = (vec![], vec![]);
     for (i, it) in items.iter().enumerate() {
         for e in 0..it.events.len() {
-            let s_sweep = if it.case.tags.iter().any(|t| t == "hash") { s_hash } else { s_plain };
+            let is_hash = it.case.tags.iter().any(|t| t == "hash");
+            let s_sweep = if is_hash { s_hash } else { s_plain };
             for k in 0..s_sweep {
                 let mut s = golden_session(it, e);
                 s.seed = ctx.seed;
@@ -349,48 +452,47 @@ pub fn run(ctx: &Ctx) -> ! {
                 w.coord_hash_seed = rng.next_u64();
                 w.nodes[0].hash_seed = rng.next_u64();
                 w.nodes[0].ref_backing = k % 2 == 1;
-                // half of the sweep compiles on the coordinator (precompile) instead of on the node
+                // a third of the sweep compiles on the coordinator (precompile) instead of on the node
                 if k % 3 == 0 {
                     w.programs[0].precompile = true;
                     w.nodes[0].ops.remove(0);
                 }
-                sessions.push(s);
-                used.push(vec![(i, e)]);
+                let dst = if is_hash { &mut sweep_hash } else { &mut sweep_plain };
+                dst.0.push(s);
+                dst.1.push(vec![(i, e)]);
             }
         }
     }
-    let sweep_sessions = sessions.len();
-    let _ = judge_batch(ctx, &sessions, &used, &g, &mut rep, &mut ev);
-    ev.extra.insert("hash_sweep".into(), serde_json::json!({"seeds_per_plain_case": s_plain, "seeds_per_hash_amplifier_case": s_hash, "sessions": sweep_sessions}));
-    println!("hash sweep: {} sessions ({:.1}s)", sweep_sessions, ctx.start.elapsed().as_secs_f64());
+    let mut sweep_done = 0usize;
 
-    // --- part 2: concurrent / history worlds --------------------------------------------------------
+    // --- concurrent / history worlds ------------------------------------------------------------------
     let n_sessions = if ctx.quick() { 1_600 } else { 40_000 };
     let max_nodes = if ctx.quick() { 4 } else { 8 };
     let max_worlds = if ctx.quick() { 6 } else { 24 };
     // items that touch process-global state or shared pools get extra weight
-    let hot: Vec<usize> = items.iter().enumerate().filter(|(_, it)| it.case.tags.iter().any(|t| t == "global" || t == "hash" || t == "early")).map(|(i, _)| i).collect();
+    let hot: Vec<usize> = items.iter().enumerate().filter(|(_, it)| it.case.tags.iter().any(|t| t == "global" || t == "hash" || t == "early" || t == "pool")).map(|(i, _)| i).collect();
     let mut samples = vec![];
     let mut done = 0;
     let mut batch_no = 0;
-    while done < n_sessions && !ctx.out_of_time() {
-        let chunk = (n_sessions - done).min(800);
+    let mut rng2 = Rng::new(mix(ctx.seed, 0xC14_2));
+    let mut concurrent_batch = |ctx: &Ctx, rep: &mut Reporter, ev: &mut Evidence, done: &mut usize, batch_no: &mut usize, samples: &mut Vec<serde_json::Value>| {
+        let chunk = (n_sessions - *done).min(800);
         let mut sessions = vec![];
         let mut used = vec![];
         for j in 0..chunk {
-            let mut r = rng.derive((batch_no * 1_000_003 + j) as u64);
+            let mut r = rng2.derive((*batch_no * 1_000_003 + j) as u64);
             let (s, u) = gen_session(&mut r, ctx.seed, &items, &hot, max_nodes, max_worlds, format!("b{batch_no}s{j}"));
             sessions.push(s);
             used.push(u);
         }
-        let results = judge_batch(ctx, &sessions, &used, &g, &mut rep, &mut ev);
+        let results = judge_batch(ctx, &sessions, &used, &g, rep, ev);
         for (s, r) in sessions.iter().zip(results.iter()) {
             let Some(r) = r else { continue };
             for (w, wr) in s.worlds.iter().zip(r.worlds.iter()) {
                 ev.evaluations += 1;
                 if wr.sched.switches_inside_runs > 0 {
                     let fresh = ev.distinct.insert(wr.sched.interleaving_digest ^ fnv(w.programs.iter().map(|p| p.source.as_str()).collect::<Vec<_>>().join("|").as_bytes()));
-                    if fresh && samples.len() < 3 && wr.sched.switches_same_program > 0 && ev.distinct.len() % 101 == 1 {
+                    if fresh && samples.len() < 3 && (samples.is_empty() || (wr.sched.switches_same_program > 0 && ev.distinct.len() % 101 == 1)) {
                         samples.push(serde_json::json!({
                             "world": w.id, "programs": w.programs.iter().map(|p| p.label.clone()).collect::<Vec<_>>(),
                             "nodes": w.nodes.iter().map(|n| serde_json::json!({"hash_seed": n.hash_seed, "own_clone": n.own_clone, "ops": n.ops.iter().map(|o| serde_json::to_value(o).unwrap()).collect::<Vec<_>>() })).collect::<Vec<_>>(),
@@ -400,9 +502,85 @@ pub fn run(ctx: &Ctx) -> ! {
                 }
             }
         }
-        done += chunk;
-        batch_no += 1;
+        *done += chunk;
+        *batch_no += 1;
+    };
+
+    // --- contention worlds: for every program with >= 2 events, 2-3 nodes share the compiled program and run it on
+    // alternating events (input-dependent shared state inside a function expression needs exactly this) -------------
+    let k_contention = if ctx.quick() { 3 } else { 24 };
+    let mut contention: (Vec<SessionSpec>, Vec<Vec<(usize, usize)>>) = (vec![], vec![]);
+    {
+        // programs the compiler rejects (many lifted ones: the literal had to be a literal) add nothing here
+        let rejected = |i: usize| -> bool {
+            g.index.get(&(i, 0)).and_then(|ix| g.results[*ix].as_ref().ok()).is_some_and(|r| r.worlds.first().is_some_and(|w| w.obs.iter().any(|o| o.outcome.starts_with("NOPROGRAM"))))
+        };
+        let multi: Vec<usize> = (0..items.len()).filter(|i| items[*i].events.len() >= 2 && !rejected(*i)).collect();
+        let mut worlds: Vec<(WorldSpec, Vec<(usize, usize)>)> = vec![];
+        for k in 0..k_contention {
+            for &i in &multi {
+                let it = &items[i];
+                let n_nodes = 2 + rng.below(2);
+                let ne = it.events.len();
+                let nodes = (0..n_nodes)
+                    .map(|n| NodeSpec {
+                        tz: "UTC".into(),
+                        hash_seed: 1,
+                        own_clone: false,
+                        ref_backing: rng.chance(0.5),
+                        ops: (0..6).map(|r| Op::Run { prog: 0, event: (n + r + rng.below(2)) % ne, fresh_runtime: true, faults: FaultPlan::default(), tag: String::new() }).collect(),
+                    })
+                    .collect();
+                worlds.push((
+                    WorldSpec {
+                        id: format!("cont-{k}-{i}"),
+                        clock: Some(T0),
+                        coord_hash_seed: 1,
+                        programs: vec![it.case.program.clone()],
+                        events: it.events.clone(),
+                        nodes,
+                        sched: SchedSpec { policy: Policy::Random { p: *rng.pick(&[0.1, 0.3, 0.5, 0.7]) }, seed: rng.next_u64(), max_yields: 50_000 },
+                        files: vec![],
+                        monitors: vec![],
+                        fresh_threads: false,
+                    },
+                    (0..ne).map(|e| (i, e)).collect(),
+                ));
+            }
+        }
+        for chunk in worlds.chunks(40) {
+            contention.0.push(SessionSpec { seed: ctx.seed, tz_env: None, layout_salt: 0, worlds: chunk.iter().map(|(w, _)| w.clone()).collect() });
+            contention.1.push(chunk.iter().flat_map(|(_, u)| u.iter().copied()).collect());
+        }
     }
+
+    // order: the parts that must never be skipped first (amplifier sweep, one concurrent batch), then the rest
+    // in deadline-checked chunks, so that a slow machine shortens the exploration but never empties a phase
+    let _ = judge_batch(ctx, &sweep_hash.0, &sweep_hash.1, &g, &mut rep, &mut ev);
+    sweep_done += sweep_hash.0.len();
+    println!("amplifier sweep: {} sessions ({:.1}s)", sweep_hash.0.len(), ctx.start.elapsed().as_secs_f64());
+    {
+        let before = ev.worlds;
+        let _ = judge_batch(ctx, &contention.0, &contention.1, &g, &mut rep, &mut ev);
+        ev.evaluations += ev.worlds - before;
+        ev.extra.insert("contention_worlds".into(), (ev.worlds - before).into());
+        println!("contention worlds: {} ({:.1}s)", ev.worlds - before, ctx.start.elapsed().as_secs_f64());
+    }
+    concurrent_batch(ctx, &mut rep, &mut ev, &mut done, &mut batch_no, &mut samples);
+    println!("first concurrent batch: {done} sessions ({:.1}s)", ctx.start.elapsed().as_secs_f64());
+    let mut plain_pos = 0;
+    while plain_pos < sweep_plain.0.len() && !ctx.out_of_time() {
+        let end = (plain_pos + 600).min(sweep_plain.0.len());
+        let _ = judge_batch(ctx, &sweep_plain.0[plain_pos..end], &sweep_plain.1[plain_pos..end], &g, &mut rep, &mut ev);
+        sweep_done += end - plain_pos;
+        plain_pos = end;
+    }
+    println!("plain sweep: {plain_pos} of {} sessions ({:.1}s)", sweep_plain.0.len(), ctx.start.elapsed().as_secs_f64());
+    while done < n_sessions && !ctx.out_of_time() {
+        concurrent_batch(ctx, &mut rep, &mut ev, &mut done, &mut batch_no, &mut samples);
+    }
+    let sweep_sessions = sweep_done;
+    ev.extra.insert("hash_sweep".into(), serde_json::json!({"seeds_per_plain_case": s_plain, "seeds_per_hash_amplifier_case": s_hash, "sessions_executed": sweep_done, "sessions_planned": sweep_hash.0.len() + sweep_plain.0.len()}));
     ev.extra.insert("concurrent_history_sessions".into(), (done as u64).into());
     ev.evaluations += sweep_sessions as u64;
     ev.samples = samples;
